@@ -62,6 +62,13 @@ def doStep (d : DSt) (stepToks : List String) : DSt :=
     let cells := d.cells ++ newCells
     let isClosed := d.closed || closeAfter
     let r := step (kernelChooser seq) isClosed d.bst () cells h
+    if rest.contains "rst" then
+      -- the peer closed with unread data in its queue: a read past what is queued ends with ECONNRESET, a write with EPIPE
+      -- (both `SocketBroken`); what was written is not observable any more; the scenario ends here
+      let o := if r.o.res == .blocked then { r.o with res := .err .sockBroken }
+               else if !r.o.out.isEmpty then { r.o with res := .err .sockBroken, out := [], outFds := 0 } else r.o
+      { bst := r.o.st, cells := r.rest, closed := true, nextId := d.nextId + n + nb, dead := true, obs := d.obs ++ [fmtOut o] }
+    else
     { bst := r.o.st, cells := r.rest, closed := isClosed, nextId := d.nextId + n + nb,
       dead := r.o.res == .blocked, obs := d.obs ++ [fmtOut r.o] }
   | _ => { d with obs := d.obs ++ ["bad-step"] }
